@@ -177,6 +177,10 @@ def coerce(val, ty):
                         return V(ty, ty.mk(tag, coerce(val, alt).t))
                     except Unsupported:
                         continue
+            lit = getattr(ty, "dict_literal_tag", None)
+            if lit is not None:
+                # the sidecar declares that a dict literal in this position is one fixed constant (e.g. a built-in default rule)
+                return V(ty, ty.mk(lit))
         raise Unsupported("cannot coerce dict literal to %s" % ty)
     if isinstance(val, PyTup):
         if isinstance(ty, TupleT):
